@@ -41,6 +41,7 @@ import Jamm.Proofs.LockLemmas
 import Jamm.Proofs.LockOrderLemmas
 import Jamm.Proofs.ConcLemmas
 import Jamm.Gen.Steps
+import Jamm.Gen.Sites
 set_option linter.unusedSectionVars false
 
 namespace Jamm.Props.C09
@@ -94,7 +95,8 @@ open Jamm.LockOrder (Lk Act Ordered Kind CommitPath Tables program beginActs dro
 
 /-- the step tables the translator extracted from the source -/
 def genTables : Tables :=
-  { begin := Gen.beginSteps, commit := Gen.commitSteps, resize := Gen.resizeSteps, drop := Gen.dropSteps }
+  { begin := Gen.beginSteps, commit := Gen.commitSteps, resize := Gen.resizeSteps, drop := Gen.dropSteps,
+    mlocks := Gen.metaLocks }
 
 /-- the lock actions of one transaction of kind `k`, according to the generated tables -/
 def genProgram (k : Kind) : List Act := program genTables k
@@ -128,15 +130,26 @@ theorem generated_programs_ordered (k : Kind) : Ordered (genProgram k) = true :=
               genProgram (.write (some ⟨g, r, p, some Gen.commitSteps.length⟩)) := by
             simp only [genProgram, program, LockOrder.commitActs, genTables]
             rw [List.take_of_length_le (by omega), List.take_of_length_le (Nat.le_refl _)]
-            have hca : LockOrder.commitAct ⟨g, r, p, some n⟩ Gen.resizeSteps =
-                LockOrder.commitAct ⟨g, r, p, some Gen.commitSteps.length⟩ Gen.resizeSteps := by
+            have hca : LockOrder.commitAct ⟨g, r, p, some n⟩ Gen.resizeSteps Gen.metaLocks =
+                LockOrder.commitAct ⟨g, r, p, some Gen.commitSteps.length⟩ Gen.resizeSteps Gen.metaLocks := by
               funext st; cases st <;> rfl
             rw [hca]
           rw [hn]
           exact key _ (Nat.le_refl _) g r p
 
+/-- every acquisition of one of the five locks anywhere in the crate (regenerated: function, lock, mode, in
+source order) is one the step → lock-action mapping of the model accounts for: `open` (D then L), `resize`
+(M-write then D), `meta` (D — as `Gen.metaLocks` says), `Tx::new` (F or M-read, L, O, D), `write_data` (L),
+`Drop` (O).  A function that starts taking another lock — `meta()` taking the map read lock, say — breaks
+this, and the model's programs (which take `meta`'s locks from `Gen.metaLocks`) change with it. -/
+theorem lock_sites_are_the_modelled_ones :
+    Gen.lockSites = ["db.rs:open:data.lock", "db.rs:open:freelist.lock", "db.rs:resize:mmap_lock.write", "db.rs:resize:data.lock",
+      "db.rs:meta:data.lock", "tx.rs:new:file.lock", "tx.rs:new:mmap_lock.read", "tx.rs:new:freelist.lock",
+      "tx.rs:new:open_ro_txs.lock", "tx.rs:new:data.lock", "tx.rs:write_data:freelist.lock", "tx.rs:drop:open_ro_txs.lock"] ∧
+    Gen.metaLocks = [.data] := by decide
+
 /-- `DBInner::open` (single-threaded) is the one place where two of the short mutexes nest: D, then L -/
-theorem open_ordered : Ordered (openActs Gen.openInner) = true := by decide
+theorem open_ordered : Ordered (openActs Gen.metaLocks Gen.openInner) = true := by decide
 
 /-- **no deadlock, five locks**: any number of threads, each running any script of transactions, either
 admission policy of the rwlock, any schedule: if some thread still has something to do, some thread
@@ -210,7 +223,7 @@ theorem misordered_resize_deadlocks (admit : Bool) :
 /-- the generated programs, nested on one thread: a growing write transaction opened (and committed) while
 the same thread has a read transaction open -/
 def nestedWriteInRead : List Act :=
-  beginActs false Gen.beginSteps ++ genProgram (.write (some (.full true))) ++ dropActs false Gen.dropSteps
+  beginActs false Gen.metaLocks Gen.beginSteps ++ genProgram (.write (some (.full true))) ++ dropActs false Gen.dropSteps
 
 /-- … is not `Ordered` (F is taken while M-read is held) and deadlocks all by itself: `resize` waits for
 the thread's own read lock -/
@@ -223,7 +236,7 @@ theorem nested_write_in_read_deadlocks (admit : Bool) :
 
 /-- a second read transaction opened while the same thread has a read transaction open -/
 def nestedReadInRead : List Act :=
-  beginActs false Gen.beginSteps ++ genProgram .read ++ dropActs false Gen.dropSteps
+  beginActs false Gen.metaLocks Gen.beginSteps ++ genProgram .read ++ dropActs false Gen.dropSteps
 
 /-- … is not `Ordered` (M-read is taken while M-read is held); with the writer-preferring rwlock it
 deadlocks against a growing commit that arrives in between, with the reader-admitting one it does not:
